@@ -146,7 +146,8 @@ def run(ctx):
                     where = r.choice(["", " where size > 5", " where is_dir = true", " where size >= 1 and size <= 1025"])
                 if col == "line_count" and "is_file" not in where:
                     partial = True
-                    aggs = ["avg"] + r.sample(["count", "sum"], r.range(0, 2))
+                    # (MIN / MAX range over the entries that have a value)
+                    aggs = ["avg"] + r.sample(["count", "sum", "min", "max"], r.range(0, 3))
                 sel = ", ".join("%s(%s)" % (a, "*" if (a == "count" and r.chance(1, 2)) else col) for a in aggs)
                 q = "select %s from .%s into list" % (sel, where)
                 qrows = "select %s from .%s into list" % (col, where)
